@@ -127,7 +127,9 @@ MANIFEST = {
             "outside, an I/O error when it does not resolve; trace invariant by induction over preprocess / resolve_and_ingest at any "
             "nesting depth: every file read other than the top-level source lies inside the root and is immediately preceded by the "
             "successful check of a path resolving to it — for EVERY run, successful or failing (C18_all_runs_*: traced variants of the "
-            "ingestion functions that return the partial trace of failing runs too, proved to agree with the original ones).",
+            "ingestion functions that return the partial trace of failing runs too, proved to agree with the original ones). NON-INTERFERENCE "
+            "(C18_noninterference): two file systems with the same directory structure and the same text in the top-level file and under its root give "
+            "the same bytes-or-error and the same trace, whatever files outside the root contain.",
     "note": "Partial by nature: that std::fs::canonicalize returns the fully resolved location and that the file read is the file checked "
             "(no concurrent modification) are assumptions about the OS, represented by the FS parameter. Trusted: Lean kernel; "
             "Asm/Ingest.lean tied to ingest.rs by the differential run on trees with symlinked files/directories, `..`, absolute paths "
